@@ -110,7 +110,8 @@ def o_interrupt(rec, world, hist):
     out = []
     sim = rec.sim
     ix = O.index(rec)
-    tags = {"interrupt": True, "during_pool_startup": O._interrupt_during_startup(rec)}
+    tags = {"interrupt": True, "during_pool_startup": O._interrupt_during_startup(rec),
+            "inside_thread_start_after_spawn": O._interrupt_inside_started_wait(rec)}
     delivered = ix.interrupt_seq
     if delivered is None:
         sim.probe("interrupt-not-delivered")
